@@ -27,7 +27,10 @@ RULE = ('one case = one rectangular geometry (shape, three spacing patterns, shi
         '-angle, atmosphere type, one surface code per column) x configuration (generating and requested naming '
         'convention, boundary block kind, origin block given or detected, remove_inactive, in memory or through a '
         'written and re-read data file); shapes x atmosphere x surface family x angles are crossed, the other '
-        'dimensions are all combinations of <= k deviations from the base; every case runs fromgeo -> rectgeo -> '
+        'dimensions are all combinations of <= k deviations from the base; a case may carry a history (the same '
+        'geometry object converted before with a primer surface, after or before it was moved) and may be observed twice '
+        '(rectgeo on the grid in memory before and after it was written / reverse-engineered / regenerated, the grid and '
+        'every argument compared with their state before); every case runs fromgeo -> rectgeo -> '
         'fromgeo on the real code and is non-trivial (>= 4 blocks, >= 2 layers); distinct = distinct case tuple')
 ASSUMPTIONS = [
     'rotation is applied the way the library itself does it: geo.rotate(a, origin); geo.permeability_angle = -a '
@@ -52,7 +55,13 @@ ASSUMPTIONS = [
     'input perturbation',
     'reference: ref/rectmodel.py (cumulative sums, one rotation formula); the generating geometry itself is '
     'checked against it first (clause forward)',
-    'rectgeo calls are limited to 20 s (120 s for 10x12x14): a timeout is a violation (rectgeo is known to loop '
+    'a geometry with a history is changed the documented way: column.surface assigned, set_column_num_layers for the '
+    'column, then setup_block_name_index and setup_block_connection_name_index; the earlier grid stays alive',
+    'observing operations (t2data.write in each flavour, rectgeo, fromgeo(geo2, blockmap)) are not documented to modify '
+    'the grid, the geometry or the block map they are given: their complete visible state is compared exactly before '
+    'and after; the second rectgeo result is compared with the first to 1e-9 relative',
+    'naming convention 1 (two digits for the column) is not in the space for >= 100 columns (the library refuses it)',
+    'rectgeo calls are limited to 20 s (120 s for >= 100 columns): a timeout is a violation (rectgeo is known to loop '
     'for ever on direction ties), not a verdict on speed - the unchanged tree needs < 0.05 s (< 2 s)']
 BOUNDS = {
     'quick': {'shapes': '(1,2) (2,1) (2,2) (3,2) (1,3) (3,3) x nz 2..3', 'angles': [0, 30, 135, -45],
@@ -63,14 +72,28 @@ BOUNDS = {
                          'single-column deviation (down, mid, above) otherwise',
               'geometric deviations (spacing pattern 8, shift 1, file 1)': 'k <= 1, at angles 0 and 30 (other angles: base only)',
               'configuration deviations (convention pair 15, boundary kind 16, origin block 1, remove_inactive 1, '
-              'file 1, angle 30, stair surface)': 'k <= 1', 'big': 'none'},
+              'file 1, angle 30, stair surface)': 'k <= 1', 'big': 'none',
+              'history of the generating geometry': '8 (primer flat, above, stair, slope, mid, down converted after the move; '
+                                                    'flat and the same surface converted before the move) x every surface of '
+                                                    'the family x angles 0, 30; x 5 deviations (atmosphere volume, file, '
+                                                    'conventions, spacing) on the slope surface',
+              'observed twice (no side effects, rectgeo repeatable)': '4 routes (memory, data file, MESH, binary) x 6 convention '
+                                                                      'pairs x {flat, stair} x {no boundary block, Q0001 under / '
+                                                                      'beside the grid, one under every column; inactive '
+                                                                      'atmosphere removed; history}',
+              'wide (>= 100 columns: names of convention 2 that TOUGH2 spells differently)': '10x10x2, 11x10x2 x 6 convention '
+              'pairs without convention 1 x {flat, stair, slope} x 4 routes, + boundary blocks through a file, + 2 histories; '
+              'all observed twice'},
     'thorough': {'shapes': 'all nx, ny in 1..4 not both 1 x nz 2..4, and 10x12x14',
                  'angles': [0, 30, 45, 90, 135, 180, -45, 200, 1e-06, 180.000001],
                  'surface': 'as quick', 'atmosphere volume': 'as quick',
                  'geometric deviations (spacing pattern 8, shift 1, file 1)': 'k <= 1 plus file x (shift, spacing), at angles '
                                                                              '0 and 30 (other angles: base only)',
                  'configuration deviations': 'k <= 2',
-                 'big': '10x12x14 geometric spacing: 3 angles x 3 atmospheres x {flat, stair, slope} x file'}}
+                 'big': '10x12x14 geometric spacing: 3 angles x 3 atmospheres x {flat, stair, slope} x file',
+                 'history of the generating geometry': 'as quick, on every shape',
+                 'observed twice (no side effects, rectgeo repeatable)': 'as quick, on every shape',
+                 'wide': '10x10x2, 11x10x2, 10x11x2, 12x12x2, otherwise as quick'}}
 TECHNIQUE = ('bounded exhaustive enumeration of rectangular geometries x configurations through the real '
              'fromgeo -> (data file) -> rectgeo -> fromgeo chain against an arithmetic reference model')
 LEVEL_TEXT = ('Every geometry of the stated family (shape x atmosphere x surface assignment x angle, crossed) and every '
